@@ -399,5 +399,40 @@ func streamCodec(c *ctx) {
 		emitUnmarshal(lt, t, p, "unmarshal-of/random-payload")
 		emitUnmarshal(lt, t, r.Bytes(rng.Pick(r, 0, 1, 2, 63, 65, 1024)), "unmarshal-of/wrong-length")
 	}
+	// (c) aliasing: decode, overwrite the input buffer, look at the decoded value again
+	for n := 0; n < 400*c.scale; n++ {
+		k := rng.Pick(r, "mac", "ipv4", "macaddress", "mac", allKinds[r.Intn(len(allKinds))])
+		off := 2 + r.Intn(63-kindWidth[k])
+		fs := []fieldDesc{{Kind: "msg", Tag: "0x94"}, {Kind: k, Off: off}}
+		if r.Bool() {
+			k2 := rng.Pick(r, "mac", "ipv4", "macaddress", "u32")
+			if off+kindWidth[k]+kindWidth[k2] <= 64 {
+				fs = append(fs, fieldDesc{Kind: k2, Off: off + kindWidth[k]})
+			}
+		}
+		t := buildType(fs)
+		b := randomPayload(0x94)
+		out := guard(func() string {
+			p := reflect.New(t)
+			if err := codec.Unmarshal(b, p.Interface()); err != nil {
+				return "err"
+			}
+			before := showStruct(p.Elem())
+			for i := range b {
+				b[i] ^= 0xa5
+			}
+			if showStruct(p.Elem()) == before {
+				return "same"
+			}
+			return "changed"
+		})
+		for i := range b {
+			b[i] ^= 0xa5
+		}
+		if out == "err" {
+			continue
+		}
+		w.Emit("alias "+layoutTokens(fs)+" | "+cases.Hex(b), out, "alias/"+k, "alias/"+out)
+	}
 	w.Notes = append(w.Notes, "codec stream: 19 kinds x every offset 2..63 as single-field layouts (marshal, round trip, random bytes); random layouts of 1..12 fields (packed; 1 in 8 deliberately overlapping/overhanging), decimal/hex/upper-case value tags, optional SOM field, one level of embedding; per layout: in-domain and wild values, image, mutated image (field bytes, bad nibbles, header), random payloads, wrong lengths")
 }
